@@ -20,7 +20,8 @@ SPEC = {
              "negative signs, CHG/RAD/MASS present or not) so that the wrap falls inside a number, after a minus sign, inside a keyword, directly before/after a blank; wide bond lines "
              "(labels up to 1e30); 0-bond molecules; non-consecutive unsorted labels; parser-made graphs (no coordinates, no bond types); corpus; plus the cycle string->graph->molfile->graph->string. "
              "distinct_nontrivial = distinct written texts containing at least one wrapped line"),
-    "assumptions": ["node labels are non-negative integers (the writer prints label+1)", "attributes outside the format's ranges are outside the property's domain and not generated"],
+    "assumptions": ["node labels are non-negative integers (the writer prints label+1)", "attributes outside the format's ranges are outside the property's domain and not generated",
+                    "a coordinate key that is absent from an atom means 0 for that coordinate (as for graphs from TUCAN strings, which carry none; 2-D layouts carry x and y only)"],
     "monitors_required": ["c09_writer", "c09_cycle"],
     "required_obs": {"quick": ["logical_line_len/70", "logical_line_len/71", "logical_line_len/72", "logical_line_len/73", "logical_line_len/74", "logical_line_len/75",
                                "logical_line_len/142", "logical_line_len/143", "logical_line_len/144", "logical_line_len/213", "logical_line_len/214", "logical_line_len/215",
